@@ -24,6 +24,9 @@ def generate(rng, tier, shard, nshards):
             base = {"sr": srn, "A": A, "sigma": sig, "L": max(L, A["n"]), "style": style}
             for fn in ("determinize", "min_det", "push", "trim", "trim_vals"):
                 yield event("wop", dict(base, fn=fn), site=f"WFSA.{fn}", feat=feat, timeout=10)
+            for fn in ("push.trim", "push.trim_vals", "trim.trim", "trim_vals.trim", "epsremove.trim", "reverse.trim"):
+                if rng.random() < 0.6:
+                    yield event("wop", dict(base, fn=fn), site=f"WFSA.{fn}", feat=feat + "+trim-of-a-result", timeout=10)
             if i % 2 == 0:
                 # two prefixes reach the same set of states with different weight ratios, and the states then split their
                 # weight differently: the residual weights of the power state matter, not only its support
@@ -50,6 +53,9 @@ def generate(rng, tier, shard, nshards):
             base = {"sr": srn, "A": A, "sigma": sig, "L": L, "style": style}
             for fn in ("trim", "trim_vals"):
                 yield event("wop", dict(base, fn=fn), site=f"WFSA.{fn}", feat=feat)
+            for fn in ("trim.trim", "trim_vals.trim", "epsremove.trim", "reverse.trim"):
+                if rng.random() < 0.5:
+                    yield event("wop", dict(base, fn=fn), site=f"WFSA.{fn}", feat=feat + "+trim-of-a-result")
 
 
 def selftests(events, rng):
